@@ -206,7 +206,9 @@ class Fx(object):
         self.pad_cache = {}
         self.registry = {}       # pad atom text -> inner Form
         self.trace = []
-        self.oplog = []          # (stream, op, member text or None, Form amount, line)
+        self.oplog = []          # (stream, op, member text or None, Form amount, line, exact op, const value, kind, guards)
+        self.condstack = []      # [(Cond, polarity)] of the branches being executed
+        self.rawlog = []         # raw writes through pointers: (callee name, dest offset Form, length Form or None, guards, node, ctx)
         self.reader = {}         # stream name -> True for InputMemoryStream
 
     # ---- canonical text
@@ -546,12 +548,18 @@ class Fx(object):
                     rest = stmts[i + 1:]
                     if has_return(then) or (els is not None and has_return(els)):
                         # a branch may leave the function: run the continuation inside both branches
+                        self.condstack.append((ca, True))
                         ea = self.exec_list(ctx, [then] + rest, env)
+                        self.condstack[-1] = (ca, False)
                         eb = self.exec_list(ctx, ([els] if els is not None else []) + rest, env)
+                        self.condstack.pop()
                         ea["§done"] = eb["§done"] = True
                         return self.merge(ctx, ca, ea, eb, cnd)
+                    self.condstack.append((ca, True))
                     ea = self.exec_list(ctx, [then], env)
+                    self.condstack[-1] = (ca, False)
                     eb = self.exec_list(ctx, [els], env) if els is not None else dict(env)
+                    self.condstack.pop()
                     if ea.get("§done") and not eb.get("§done"):
                         eb = self.exec_list(ctx, rest, eb)
                         return self.merge(ctx, ca, ea, eb, cnd)
@@ -996,12 +1004,12 @@ class Fx(object):
             if sz is None:
                 raise Opaque("read of a value of unknown size")
             amt = const(sz)
-            self.oplog.append((name, "read", None, amt, n.get("l"), op, None, "int" if (rt or {}).get("k") in ("int", "enum") else "bytes"))
+            self.log(name, "read", None, amt, n.get("l"), op, None, "int" if (rt or {}).get("k") in ("int", "enum") else "bytes")
             self.advance(name, amt, env)
             return
         if op == "read" and len(args) == 2:
             amt = self.fexpr(ctx, env, args[1])
-            self.oplog.append((name, "read", self.txt(ctx, args[0]), amt, n.get("l")))
+            self.log(name, "read", self.txt(ctx, args[0]), amt, n.get("l"), "read")
             self.advance(name, amt, env)
             return
         if op in ("can_read", "operator bool"):
@@ -1022,8 +1030,8 @@ class Fx(object):
                 amt = const(sz)
                 env["last:" + name] = (ctx, args[0], sz)
                 vt = t or {}
-                self.oplog.append((name, "read" if op == "read" else "write", self.txt(ctx, args[0]), amt, n.get("l"), op, facts.cval(args[0]),
-                                   "int" if vt.get("k") in ("int", "enum") else "bytes"))
+                self.log(name, "read" if op == "read" else "write", self.txt(ctx, args[0]), amt, n.get("l"), op, facts.cval(args[0]),
+                         "int" if vt.get("k") in ("int", "enum") else "bytes")
             elif len(args) == 2:
                 a0, a1 = self.txt(ctx, args[0]), self.txt(ctx, args[1])
                 t1 = facts.ty(ctx.f, args[1]) or {}
@@ -1042,11 +1050,11 @@ class Fx(object):
                 if amt is None:
                     amt = atom("dist(%s,%s)" % (a0, a1))
                 env.pop("last:" + name, None)
-                self.oplog.append((name, "write", a0[:-8] if a0.endswith(".begin()") else a0, amt, n.get("l")))
+                self.log(name, "write", a0[:-8] if a0.endswith(".begin()") else a0, amt, n.get("l"), "write")
         elif op == "fill":
             amt = self.fexpr(ctx, env, args[0])
             env.pop("last:" + name, None)
-            self.oplog.append((name, "fill", None, amt, n.get("l")))
+            self.log(name, "fill", None, amt, n.get("l"), "fill")
         elif op == "skip":
             a = self.txt(ctx, args[0])
             if a in ("inner_pdu_.size()", "inner_pdu().size()"):
@@ -1056,12 +1064,15 @@ class Fx(object):
                 return
             amt = self.fexpr(ctx, env, args[0])
             env.pop("last:" + name, None)
-            self.oplog.append((name, "skip", None, amt, n.get("l")))
+            self.log(name, "skip", None, amt, n.get("l"), "skip")
         elif op in ("pointer", "size"):
             return
         else:
             raise Opaque("stream operation %s" % op)
         self.advance(name, amt, env)
+
+    def log(self, name, kind, member, amt, line, op=None, cv=None, vkind="bytes"):
+        self.oplog.append((name, kind, member, amt, line, op or kind, cv, vkind, list(self.condstack)))
 
     def advance(self, name, amt, env):
         if env.get("rest:" + name):
@@ -1119,7 +1130,7 @@ class Fx(object):
                         res = dict(env)
                         for nm2 in names:
                             res["rest:" + nm2] = True
-                            self.oplog.append((nm2, "rest", None, Form(), s.get("l")))
+                            self.log(nm2, "rest", None, Form(), s.get("l"), "rest")
                         return res
                     raise Opaque("loop at line %s writes to the stream but is not an iteration over a container" % s.get("l"))
                 if x["k"] == "ReturnStmt":
